@@ -2,7 +2,9 @@
    ran against the real Reaper + single Sequencer + Manager on one recording datastore, with what it observed per
    item (result class, the atomic writes that reached the datastore, projected) and at the end (block records,
    state height, store height, queue records in key order, seen-set, mempool, everything GetTxs returned,
-   every batch whose queue record was deleted); [mismatches] lists the cases on which the model disagrees. *)
+   every batch the sequencer handed out); [mismatches] lists the cases on which the model disagrees.
+   A write-fault item is observed as: result class, the writes that reached the datastore and — at its place among
+   them — the attempt that was made to fail (WFail). *)
 From Coq Require Import NArith ZArith List Bool Arith.
 From Verif Require Import Model.Reaper.
 Import ListNotations.
@@ -17,13 +19,14 @@ Fixpoint list_eqb {A} (e : A -> A -> bool) (a b : list A) : bool :=
 Definition txs_eqb := list_eqb N.eqb.
 Definition batches_eqb := list_eqb txs_eqb.
 
-Definition wr_eqb (a b : wr) : bool :=
+Fixpoint wr_eqb (a b : wr) : bool :=
   match a, b with
   | WQPut x, WQPut y | WQDel x, WQDel y => txs_eqb x y
   | WMeta, WMeta => true
   | WBlock n x t s, WBlock n' x' t' s' => Nat.eqb n n' && txs_eqb x x' && Z.eqb t t' && Bool.eqb s s'
   | WState n, WState n' | WHeight n, WHeight n' => Nat.eqb n n'
   | WSeen x, WSeen y => N.eqb x y
+  | WFail x, WFail y => wr_eqb x y       (* the write attempt that was made to fail, at its place among the writes *)
   | _, _ => false
   end.
 
@@ -32,7 +35,7 @@ Definition obs_eqb (a b : N * list wr) : bool := N.eqb (fst a) (fst b) && list_e
 Record fin := mk_fin {
   f_blocks : list (list tx * Z * bool);
   f_sh : nat; f_th : nat;
-  f_queue : list batch;
+  f_queue : list batch;      (* the records under /batches, in key order *)
   f_seen : list tx;          (* sorted, without repeats *)
   f_mem : list tx;
   f_taken : list tx;
@@ -66,7 +69,7 @@ Definition check_case (c : rcase) : list N :=
   let f := c_fin c in
   (if list_eqb obs_eqb (observations (c_max c) (c_gt c) st0 (c_hist c)) (c_obs c) then [] else [1%N]) ++
   (if list_eqb2 blk_eqb (blocks s) (f_blocks f) && Nat.eqb (sh s) (f_sh f) && Nat.eqb (th s) (f_th f) then [] else [2%N]) ++
-  (if batches_eqb (queue s) (f_queue f) then [] else [3%N]) ++
+  (if batches_eqb (stale s ++ queue s) (f_queue f) then [] else [3%N]) ++
   (if set_eqb (seen s) (f_seen f) then [] else [4%N]) ++
   (if txs_eqb (mem s) (f_mem f) then [] else [5%N]) ++
   (if txs_eqb (taken s) (f_taken f) then [] else [6%N]) ++
